@@ -62,17 +62,52 @@ pub fn is_unexpected_eof(e: &std::io::Error) -> (r: bool)
 pub fn instant_after(d: std::time::Duration) -> std::time::Instant
 { std::time::Instant::now() + d }
 
-/// R22: `bounds.start_bound()` / `bounds.end_bound()` through a generic `impl RangeBounds<usize>`.  Assumed: the trait method returns
-/// what vstd's spec of the trait (`spec_start_bound` / `spec_end_bound`, which vstd ties to every concrete std range type) says.
+/// R22: `bounds.start_bound()` / `bounds.end_bound()` / `bounds.contains(&x)` through a generic `impl RangeBounds<T>`.  Assumed: the trait
+/// methods return what vstd's spec of the trait (`spec_start_bound` / `spec_end_bound`, which vstd ties to every concrete std range type)
+/// says; `contains` is the provided method of std: start bound <= x (or <) and x <= end bound (or <).
 #[verifier::external_body]
-pub fn start_bound<R: std::ops::RangeBounds<usize>>(r: &R) -> (b: std::ops::Bound<&usize>)
+pub fn start_bound<T, R: std::ops::RangeBounds<T>>(r: &R) -> (b: std::ops::Bound<&T>)
     ensures b == vstd::std_specs::range::RangeBoundsSpec::spec_start_bound(r),
 { r.start_bound() }
 
 #[verifier::external_body]
-pub fn end_bound<R: std::ops::RangeBounds<usize>>(r: &R) -> (b: std::ops::Bound<&usize>)
+pub fn end_bound<T, R: std::ops::RangeBounds<T>>(r: &R) -> (b: std::ops::Bound<&T>)
     ensures b == vstd::std_specs::range::RangeBoundsSpec::spec_end_bound(r),
 { r.end_bound() }
+
+pub open spec fn bounds_contain(lo: std::ops::Bound<&u64>, hi: std::ops::Bound<&u64>, x: u64) -> bool {
+    (match lo { std::ops::Bound::Included(p) => *p <= x, std::ops::Bound::Excluded(p) => *p < x, std::ops::Bound::Unbounded => true })
+    && (match hi { std::ops::Bound::Included(p) => x <= *p, std::ops::Bound::Excluded(p) => x < *p, std::ops::Bound::Unbounded => true })
+}
+
+/// x lies within the range `r` (spec of `RangeBounds::<u64>::contains`)
+pub open spec fn range_has<R: std::ops::RangeBounds<u64>>(r: &R, x: u64) -> bool {
+    bounds_contain(vstd::std_specs::range::RangeBoundsSpec::spec_start_bound(r), vstd::std_specs::range::RangeBoundsSpec::spec_end_bound(r), x)
+}
+
+#[verifier::external_body]
+pub fn range_contains<R: std::ops::RangeBounds<u64>>(r: &R, x: &u64) -> (b: bool)
+    ensures b == range_has(r, *x),
+{ r.contains(x) }
+
+/// R24: `(a..b).take_while(p).map(f)`.  Assumed (std contracts of Range<usize>, Iterator::take_while, Iterator::map): the result is a finite
+/// well-behaved iterator yielding f(a), f(a+1), .., f(k-1) where k is the first index in a..b that p rejects (k = b if there is none);
+/// p is only called on a..=k and f only on indices p accepted.  Closures are `Fn` (the repo's do not mutate their captures).
+#[verifier::external_body]
+pub fn range_take_while_map<T, P: Fn(&usize) -> bool, F: Fn(usize) -> T>(a: usize, b: usize, p: P, f: F) -> (r: impl Iterator<Item = T>)
+    requires
+        forall|i: usize| a <= i < b ==> call_requires(p, (&i,)),
+        forall|i: usize| a <= i < b && call_ensures(p, (&i,), true) ==> call_requires(f, (i,)),
+    ensures
+        r.obeys_prophetic_iter_laws(),
+        r.decrease() is Some,
+        exists|k: usize| {
+            &&& a <= k && (k <= b || k == a)
+            &&& r.remaining().len() == k - a
+            &&& (k < b ==> call_ensures(p, (&k,), false))
+            &&& forall|j: int| 0 <= j < k - a ==> call_ensures(p, (&((a + j) as usize),), true) && call_ensures(f, ((a + j) as usize,), #[trigger] r.remaining()[j])
+        },
+{ (a..b).take_while(p).map(f) }
 
 /// R19: `(start..).zip(it)`.  Assumed (the std contracts of RangeFrom<u64> and Zip): a well-behaved finite iterator
 /// stays so, and the i-th pair is (start + i, i-th element of `it`).
